@@ -77,7 +77,7 @@ def dense_ttm(E, shape):
 
 
 @ob("C02", params=[dict(shape=(2, 3), R=2), dict(shape=(2, 3, 2), R=2), dict(shape=(3, 2, 2), R=1), dict(shape=(2, 2, 3), R=2, _tier="thorough"),
-                   dict(shape=(2, 2, 2, 2), R=2, _tier="thorough"), dict(shape=(2, 3, 2, 2), R=1, _tier="thorough")],
+                   dict(shape=(2, 2, 2, 2), R=2), dict(shape=(2, 3, 2, 2), R=1), dict(shape=(2, 2, 3, 2, 2), R=1, _tier="thorough")],
     bounds="dense: every mode n (first/middle/last); factor list and Kruskal operand with non-unit weights; mttkrps")
 def dense_mttkrp(E, shape, R):
     """tensor.mttkrp(U,n) == X_(n) KR(U_m, m != n), Kruskal weights applied; mttkrps == all modes at once"""
